@@ -355,6 +355,11 @@ def tr_consts():
     if not m:
         raise TranslateError('advanceLine: hidden-file test not found')
     hidden = c_string_literal(m.group(1))
+    # the generator's initial file state:  .fs = { .name = "...", .line = N }
+    m = re.search(r'\.fs\s*=\s*\{\s*\.name\s*=\s*"((?:[^"\\]|\\.)*)"\s*,\s*\.line\s*=\s*(-?\d+)\s*,?\s*\}', gc)
+    if not m:
+        raise TranslateError('gen.cpp: initial file state of the generator not found')
+    root_file, root_line = c_string_literal(m.group(1)), int(m.group(2))
     out = ['(* GENERATED by tools/translate.py from parse.hpp, parse.cpp, macro.cpp, gen.cpp — do not edit *)',
            'From Theo Require Import Base.', 'Local Open Scope N_scope.', '',
            'Definition macro_passes : N := %d.' % passes,
@@ -372,6 +377,9 @@ def tr_consts():
            'Definition loopvar_p3 : str := %s.' % coq_str(l3),
            'Definition loopvar_p4 : str := %s.' % coq_str(l4),
            'Definition hidden_file : str := %s.' % coq_str(hidden),
+           '(* the position the generator starts from, before any token has been visited *)',
+           'Definition gen_root_file : str := %s.' % coq_str(root_file),
+           'Definition gen_root_line : Z := %s%%Z.' % (str(root_line) if root_line >= 0 else '(%d)' % root_line),
            '']
     return '\n'.join(out) + '\n'
 
@@ -504,12 +512,89 @@ def tr_statics():
     return '\n'.join(out) + '\n'
 
 
+# ---------------------------------------------------------------------------------------------
+# lex.yy.c: the DFA tables of the committed scanner
+# ---------------------------------------------------------------------------------------------
+def tr_flex():
+    src = open(os.path.join(REPO, 'Compiler/src/lex.yy.c'), encoding='latin-1').read()
+    tabs = {}
+    for m in re.finditer(r'static const (?:flex_int16_t|flex_int32_t|YY_CHAR) (yy_\w+)\[(\d+)\] =\s*\{(.*?)\}\s*;', src, flags=re.S):
+        name, n, body = m.group(1), int(m.group(2)), m.group(3)
+        vals = [int(x) for x in re.findall(r'-?\d+', body)]
+        if len(vals) != n:
+            raise TranslateError('lex.yy.c: table %s declares %d entries, has %d' % (name, n, len(vals)))
+        tabs[name] = vals
+    need = ['yy_accept', 'yy_ec', 'yy_meta', 'yy_base', 'yy_def', 'yy_nxt', 'yy_chk', 'yy_rule_can_match_eol']
+    for k in need:
+        if k not in tabs:
+            raise TranslateError('lex.yy.c: table %s not found' % k)
+    def one(rx, what):
+        ms = set(re.findall(rx, src))
+        if len(ms) != 1:
+            raise TranslateError('lex.yy.c: cannot read %s (%r)' % (what, sorted(ms)))
+        return int(ms.pop())
+    jam = one(r'while \( yy_current_state != (\d+) \)', 'the jam state of the match loop')
+    thr = one(r'if \( yy_current_state >= (\d+) \)', 'the template threshold')
+    start = one(r'yyg->yy_start = (\d+);\s*/\* first start state \*/', 'the start state')
+    nulc = one(r'YY_CHAR yy_c = \(\*yy_cp \? yy_ec\[YY_SC_TO_UI\(\*yy_cp\)\] : (\d+)\);', 'the class of NUL')
+    nulc2 = one(r'yy_try_NUL_trans  \(yy_state_type yy_current_state , yyscan_t yyscanner\)\s*\{[^}]*?YY_CHAR yy_c = (\d+);', 'the class of NUL in yy_try_NUL_trans')
+    if nulc != nulc2:
+        raise TranslateError('lex.yy.c: two different classes for NUL')
+    nrules = one(r'#define YY_NUM_RULES (\d+)', 'YY_NUM_RULES')
+    eob = one(r'#define YY_END_OF_BUFFER (\d+)', 'YY_END_OF_BUFFER')
+    # features the model of the skeleton does not cover
+    for marker in ['#define REJECT reject_used_but_not_detected', '#define yymore() yymore_used_but_not_detected',
+                   '#define YY_MORE_ADJ 0', 'yy_current_state = yyg->yy_start;\n']:
+        if marker not in src:
+            raise TranslateError('lex.yy.c: REJECT / yymore / ^ rules are not covered by the model (%r missing)' % marker)
+    if 'yy_looking_for_trail_begin' in src or 'YY_TRAILING_MASK' in src:
+        raise TranslateError('lex.yy.c: variable trailing context is not covered by the model')
+    # the rule actions in the switch, in order: which token kind case k+1 produces
+    acts = []
+    for m in re.finditer(r'^case (\d+):\n(?:/\* rule \d+ can match eol \*/\n)?YY_RULE_SETUP\n(.*?)\n\tYY_BREAK', src, flags=re.M | re.S):
+        k, body = int(m.group(1)), m.group(2).strip()
+        if body == '{}':
+            a = 'Some None'
+        elif body == 'ECHO;':
+            a = 'None'
+        else:
+            mm = re.match(r'^\{TOK\(Theo::Token::(?:Type::)?([A-Za-z_]+)\)\}$', body)
+            if not mm:
+                raise TranslateError('lex.yy.c: action of case %d not covered: %r' % (k, body))
+            a = 'Some (Some %s)' % mm.group(1)
+        if k != len(acts) + 1:
+            raise TranslateError('lex.yy.c: case labels out of order at %d' % k)
+        acts.append(a)
+    if len(acts) != nrules:
+        raise TranslateError('lex.yy.c: %d rule cases, YY_NUM_RULES %d' % (len(acts), nrules))
+    def zl(v):
+        lines = []
+        for i in range(0, len(v), 20):
+            lines.append('    ' + '; '.join(str(x) if x >= 0 else '(%d)' % x for x in v[i:i + 20]))
+        return '[\n' + ';\n'.join(lines) + ']'
+    out = ['(* GENERATED by tools/translate.py from Compiler/src/lex.yy.c — do not edit *)',
+           'From Theo Require Import Base Regex Tokens Lexer FlexModel.', 'Local Open Scope Z_scope.', '']
+    for k in need:
+        out.append('Definition %s : list Z := %s.' % (k, zl(tabs[k])))
+        out.append('')
+    out.append('Definition flex_tables : ftables :=')
+    out.append('  mkFlex yy_accept yy_ec yy_meta yy_base yy_def yy_nxt yy_chk yy_rule_can_match_eol %d %d %d %d %d.' % (jam, thr, start, nulc, eob))
+    out.append('')
+    out.append('(* the action of case k+1 of the switch: None = ECHO (default rule), Some None = {}, Some (Some t) = TOK(t) *)')
+    out.append('Definition flex_actions : list (option (option tkind)) := [')
+    out.append(';\n'.join('  ' + a for a in acts))
+    out.append('].')
+    out.append('')
+    return '\n'.join(out) + '\n'
+
+
 TRANSLATORS = {
     'Gen_Lexer.v': tr_lexer,
     'Gen_Enums.v': tr_enums,
     'Gen_Consts.v': tr_consts,
     'Gen_MacroGrammar.v': tr_macrogrammar,
     'Gen_Statics.v': tr_statics,
+    'Gen_Flex.v': tr_flex,
 }
 
 
